@@ -114,15 +114,28 @@ def run_program(excutils, prog, flag0, kind):
                 raise MachineryError('unknown op %s' % op)
     propagated = None
     entry = None
+    ctx_box = []
+    entry_state = (None, False, ())
     try:
         try:
             origin_raise()
         except BaseException as active:
             entry = innermost_function(active)
+            entry_state = (active.__cause__, active.__suppress_context__, active.args)
             with excutils.save_and_reraise_exception(reraise=flag0, logger=logger) as ctx:
+                ctx_box.append(ctx)
                 body(ctx)
     except BaseException as e:       # noqa: the harness must see everything
         propagated = e
+    # after the with statement: what the context object still holds (beyond the property's statement;
+    # ExcHelpers models it as the code behaves: `saved` persists until force_reraise consumes it)
+    post = None
+    if ctx_box:
+        try:
+            ctx_box[0].force_reraise()
+            post = ('none', False)
+        except BaseException as e:   # noqa
+            post = (getattr(e, 'vid', 4 if type(e) is type(E1) else -1), e is E1)
     vid = getattr(propagated, 'vid', -1) if propagated is not None else 0
     same_object = propagated is E1
     origin = innermost_function(propagated) if propagated is not None else None
@@ -132,7 +145,10 @@ def run_program(excutils, prog, flag0, kind):
         if tb.tb_frame.f_code.co_name == 'force_reraise':
             reraises += 1
         tb = tb.tb_next
-    return {'propagates': vid, 'logged': logger.errors, 'is_original_object': same_object,
+    # "the same object": also unchanged - its explicit cause (an exception in its own right: losing it is losing an
+    # exception) and its arguments; display flags such as __suppress_context__ are not compared
+    intact = (not same_object) or (propagated.__cause__ is entry_state[0] and propagated.args == entry_state[2])
+    return {'propagates': vid, 'logged': logger.errors, 'is_original_object': same_object, 'intact': intact, 'post': post,
             'innermost': origin, 'entry_innermost': entry, 'reraise_frames': reraises, 'type': type(propagated).__name__ if propagated is not None else None}
 
 
@@ -164,11 +180,21 @@ def run(ctx):
                 problems.append('not-same-object')
             if want_p == 1 and not rec['direct'] and got['innermost'] != got['entry_innermost']:
                 problems.append('traceback')
+            if want_p == 1 and got['is_original_object'] and not got['intact']:
+                problems.append('exception-altered')
             body_completed = not rec['prog'] or rec['prog'][-1] not in ('raise_new', 'nest_on', 'force')
             if want_p == 1 and not rec['direct'] and body_completed and got['reraise_frames'] > 1:
                 # the traceback is the saved one plus ONE re-raise, not the one grown by earlier re-raises
                 problems.append('traceback-not-restored')
             outcomes[(want_p, rec['logged'])] = outcomes.get((want_p, rec['logged']), 0) + 1
+            # use of the context object after the with statement is outside C09's statement: a mismatch with the
+            # module (which keeps `saved` until force_reraise consumes it) is a beyond-property report
+            if got['post'] is not None and rec['post'] in (1, 2) and kind != 'needs_args':
+                if got['post'][0] != rec['post'] or (rec['post'] == 1 and not got['post'][1]):
+                    ctx.beyond('ExcHelpers', {'kind': 'force_reraise-after-exit', 'want': rec['post'], 'last_op': rec['prog'][-1] if rec['prog'] else 'end'},
+                               {'program': rec['prog'], 'initial_reraise': rec['flag0'], 'exception_class': kind, 'observed': got['post'], 'expected': rec['post']},
+                               'ctx.force_reraise() after the with statement (body %s, reraise=%s, class %s) raised %s, the module says '
+                               'the saved exception %s' % (rec['prog'], rec['flag0'], kind, got['post'], rec['post']))
             if problems:
                 ctx.violation({'kind': problems[0], 'direct': rec['direct'], 'class': kind,
                                'last_op': rec['prog'][-1] if rec['prog'] else 'end', 'want': want_p},
@@ -242,17 +268,34 @@ def run_filter(excutils, c):
         return res
 
     class Holder:
+        answer = res
+
         @excutils.exception_filter
         def method(self, ex):
             calls['n'] += 1
-            return res
+            return self.answer
     target = Plain('filtered') if c['body'] != 'raises_base' else MyBase('filtered')
     other = Plain('other')
     raising = c['body'] in ('raises', 'raises_base')
     propagated = None
     usage = c['usage']
     try:
-        if usage in ('context', 'decorated', 'bound_method'):
+        if usage == 'bound_method_of_copy':
+            import copy
+            first = Holder()
+            first.answer = not res          # the first object's predicate says the opposite
+            try:
+                with first.method:
+                    raise Plain('warm-up')
+            except Plain:
+                pass
+            calls['n'] = 0
+            second = copy.copy(first)
+            second.answer = res
+            with second.method:
+                if raising:
+                    raise target
+        elif usage in ('context', 'decorated', 'bound_method'):
             f = excutils.exception_filter(pred) if usage != 'bound_method' else Holder().method
             if usage == 'decorated':
                 f = excutils.exception_filter(pred)
